@@ -1,7 +1,308 @@
 /- helper lemmas for PCGrad / GradDrop / CAGrad / softmax (C18) -/
 import Mathlib.Algebra.Order.Field.Basic
+import Mathlib.Tactic.Ring
+import Mathlib.Tactic.Linarith
+import Mathlib.Tactic.FieldSimp
+import Mathlib.Tactic.Positivity
 import TjdModel.Agg.Spec2
 import TjdLemmas.QPLemmas
+import TjdLemmas.GramLemmas
 namespace Tjd.Agg
+open Tjd Matrix
+set_option linter.unusedSectionVars false
+set_option linter.unusedSimpArgs false
+set_option linter.unusedVariables false
+
+variable {α : Type} [Field α] [LinearOrder α] [IsStrictOrderedRing α]
+
+/-! ### softmax -/
+
+theorem sum_map_div (l : List α) (s : α) : (l.map (· / s)).sum = l.sum / s := by
+  induction l with
+  | nil => simp
+  | cons a l ih => simp [ih, add_div]
+
+theorem list_sum_pos : ∀ (l : List α), l ≠ [] → (∀ x ∈ l, 0 < x) → 0 < l.sum
+  | [], h, _ => absurd rfl h
+  | [a], _, hp => by simpa using hp a (by simp)
+  | a :: b :: l, _, hp => by
+    rw [List.sum_cons]
+    exact add_pos (hp a (by simp)) (list_sum_pos (b :: l) (by simp) fun x hx => hp x (by simp [hx]))
+
+theorem softmax_spec (e : α → α) (he : ∀ x, 0 < e x) (xs : Vec α) (hx : xs ≠ []) :
+    (∀ w ∈ softmaxW e xs, 0 < w) ∧ (softmaxW e xs).sum = 1 ∧
+      (softmaxW e xs).length = xs.length := by
+  have hpos : 0 < (xs.map e).sum := by
+    apply list_sum_pos _ (by simpa using hx)
+    intro x hx
+    obtain ⟨y, _, rfl⟩ := List.mem_map.mp hx
+    exact he y
+  refine ⟨?_, ?_, by simp [softmaxW]⟩
+  · intro w hw
+    simp only [softmaxW, List.mem_map] at hw
+    obtain ⟨_, ⟨y, _, rfl⟩, rfl⟩ := hw
+    exact div_pos (he y) hpos
+  · show ((xs.map e).map (· / (xs.map e).sum)).sum = 1
+    rw [sum_map_div, div_self hpos.ne']
+
+/-! ### GradDrop -/
+
+theorem graddrop_coord [Inhabited α] (J : Mat α) (leak U : Vec α) (n c : Nat) (hc : c < n) :
+    let column := col J c
+    let s := column.sum
+    let a := (column.map absV).sum
+    let P := (1 + s / a) / (1 + 1)
+    (graddrop J leak U n).getD c 0 =
+      (column.zipIdx.map fun (xi : α × Nat) =>
+        let keep : α :=
+          if a = 0 then 0
+          else if U.getD c 0 < P then (if 0 < xi.1 then 1 else 0)
+          else if P < U.getD c 0 then (if xi.1 < 0 then 1 else 0)
+          else 0
+        (leak.getD xi.2 0 + (1 - leak.getD xi.2 0) * keep) * xi.1).sum := by
+  intro column s a P
+  unfold graddrop
+  rw [List.getD_eq_getElem?_getD, List.getElem?_map, List.getElem?_range hc]
+  simp only [Option.map_some, Option.getD_some]
+  congr 1
+  apply List.map_congr_left
+  rintro ⟨x, i⟩ _
+  show (leak.getD i 0 + (1 - leak.getD i 0) * _) * x = (leak.getD i 0 + (1 - leak.getD i 0) * _) * x
+  congr 3
+  by_cases ha : a = 0
+  · simp [a, column, s] at ha ⊢
+    simp [ha]
+  · have ha' : ¬ (List.map absV (col J c)).sum = 0 := ha
+    simp only [ha', if_false, ha, a, column, s, P]
+    generalize List.getD U c 0 = u
+    generalize (1 + (col J c).sum / (List.map absV (col J c)).sum) / (1 + 1) = p
+    rcases lt_trichotomy u p with h | h | h
+    · have h' := lt_asymm h
+      rcases lt_trichotomy x 0 with hx | hx | hx
+      · have hx' := lt_asymm hx
+        simp [h, h', hx, hx']
+      · simp [h, h', hx]
+      · have hx' := lt_asymm hx
+        simp [h, h', hx, hx']
+    · subst h; simp
+    · have h' := lt_asymm h
+      rcases lt_trichotomy x 0 with hx | hx | hx
+      · have hx' := lt_asymm hx
+        simp [h, h', hx, hx']
+      · simp [h, h', hx]
+      · have hx' := lt_asymm hx
+        simp [h, h', hx, hx']
+
+/-! ### CAGrad -/
+
+theorem cagrad_closed (J : Mat α) (m n : Nat) (hm : 0 < m) (hJ : MatWF J m n)
+    (c g0n gwn normEps : α) (w : Vec α) (hw : w.length = m) :
+    combine n J (cagradWeights m c g0n gwn normEps w) =
+      if normEps ≤ gwn then vadd (meanRow n J) (smul (c * g0n / gwn) (combine n J w))
+      else zeros n := by
+  unfold cagradWeights
+  split_ifs with h
+  · have hmean : (meanRow n J).length = n := combine_length J m n hJ _
+    have hl : (meanRow n J).length = (smul (c * g0n / gwn) (combine n J w)).length := by
+      rw [hmean, smul_length, combine_length J m n hJ]
+    apply toFn_injective n _ _ (combine_length J m n hJ _) (by rw [vadd_length _ _ hl, hmean])
+    rw [toFn_combine J m n hJ _ (by simp), toFn_vadd n _ _ hl, toFn_smul, meanRow,
+      toFn_combine J m n hJ _ (by simp [hJ.1]), toFn_combine J m n hJ w hw, ← smul_vecMul,
+      ← add_vecMul]
+    congr 1
+    funext i
+    simp [toFn, List.getD_eq_getElem?_getD, List.getElem?_range i.2, List.getElem?_replicate, hJ.1]
+  · exact combine_zeros J m n hJ
+
+theorem cagrad_dist (J : Mat α) (m n : Nat) (hm : 0 < m) (hJ : MatWF J m n)
+    (c g0n gwn normEps s : α) (w : Vec α) (hw : w.length = m) (hge : normEps ≤ gwn) (hgw : 0 < gwn)
+    (hs : 0 < s)
+    (h0 : dot (meanRow n J) (meanRow n J) = s * s * (g0n * g0n))
+    (h1 : dot (combine n J w) (combine n J w) = s * s * (gwn * gwn)) :
+    let d := vsub (combine n J (cagradWeights m c g0n gwn normEps w)) (meanRow n J)
+    dot d d = c * c * dot (meanRow n J) (meanRow n J) := by
+  intro d
+  have hmean : (meanRow n J).length = n := combine_length J m n hJ _
+  have hgwl : (combine n J w).length = n := combine_length J m n hJ _
+  have hl : (meanRow n J).length = (smul (c * g0n / gwn) (combine n J w)).length := by
+    rw [hmean, smul_length, hgwl]
+  have hl2 : (vadd (meanRow n J) (smul (c * g0n / gwn) (combine n J w))).length =
+      (meanRow n J).length := vadd_length _ _ hl
+  have hd : toFn n d = (c * g0n / gwn) • toFn n (combine n J w) := by
+    show toFn n (vsub _ _) = _
+    rw [cagrad_closed J m n hm hJ c g0n gwn normEps w hw, if_pos hge, toFn_vsub n _ _ hl2,
+      toFn_vadd n _ _ hl, toFn_smul]
+    simp
+  have hdl : d.length = n := by
+    show (vsub _ _).length = n
+    rw [cagrad_closed J m n hm hJ c g0n gwn normEps w hw, if_pos hge, vsub_length _ _ hl2, hl2,
+      hmean]
+  rw [dot_eq_left n d d hdl.le, hd, smul_dotProduct, dotProduct_smul, ← dot_eq_left n _ _ hgwl.le,
+    h1, h0]
+  simp only [smul_eq_mul]
+  field_simp
+
+/-! ### PCGrad -/
+
+/-- the coordinate update of the weight vector -/
+def pcUpd (cw : Vec α) (j : Nat) (δ : α) : Vec α :=
+  cw.zipIdx.map fun (x, k) => if k = j then x - δ else x
+
+/-- the body of the inner loop of `pcgradWeights` -/
+def pcStep (G : Mat α) (i : Nat) (st : Vec α × α) (j : Nat) : Vec α × α :=
+  if j = i then st else
+    let cw := st.1
+    let ip := dot (G.getD j []) cw
+    let mg := vmin [st.2, absV ip] 1
+    if ip < 0 then (pcUpd cw j (ip / (G.getD j []).getD j 0), mg) else (cw, mg)
+
+/-- the body of the loop of `pcRow` -/
+def pcRowStep (J : Mat α) (i : Nat) (g : Vec α) (j : Nat) : Vec α :=
+  if j = i then g else
+    let gj := J.getD j []
+    let ip := dot gj g
+    if ip < 0 then vsub g (smul (ip / dot gj gj) gj) else g
+
+theorem pcRow_eq (J : Mat α) (i : Nat) (perm : List Nat) :
+    pcRow J i perm = perm.foldl (pcRowStep J i) (J.getD i []) := rfl
+
+theorem pcgradWeights_fst (G : Mat α) (perms : List (List Nat)) :
+    (pcgradWeights G perms).1 =
+      vsum G.length ((List.range G.length).map fun i =>
+        ((perms.getD i []).foldl (pcStep G i) (oneHot G.length i, 1)).1) := by
+  unfold pcgradWeights
+  simp only [List.map_map]
+  rfl
+
+theorem pcUpd_length (cw : Vec α) (j : Nat) (δ : α) : (pcUpd cw j δ).length = cw.length := by
+  simp [pcUpd]
+
+theorem toFn_pcUpd (m : Nat) (cw : Vec α) (hcw : cw.length = m) (j : Nat) (hj : j < m) (δ : α) :
+    toFn m (pcUpd cw j δ) = toFn m cw - δ • Pi.single (⟨j, hj⟩ : Fin m) 1 := by
+  funext k
+  have hk : (k : Nat) < cw.length := by rw [hcw]; exact k.2
+  simp only [toFn, pcUpd, List.getD_eq_getElem?_getD, List.getElem?_map, List.getElem?_zipIdx,
+    List.getElem?_eq_getElem hk, Pi.sub_apply, Pi.smul_apply, smul_eq_mul, Option.map_some,
+    Option.getD_some, Nat.zero_add]
+  by_cases h : (k : Nat) = j
+  · have : k = ⟨j, hj⟩ := Fin.ext h
+    subst this; simp
+  · have : k ≠ ⟨j, hj⟩ := fun e => h (congrArg Fin.val e)
+    simp [h, this]
+
+theorem combine_pcUpd (J : Mat α) (m n : Nat) (hJ : MatWF J m n) (cw : Vec α) (hcw : cw.length = m)
+    (j : Nat) (hj : j < m) (δ : α) :
+    combine n J (pcUpd cw j δ) = vsub (combine n J cw) (smul δ (J.getD j [])) := by
+  have hl : (combine n J cw).length = (smul δ (J.getD j [])).length := by
+    rw [combine_length J m n hJ, smul_length, row_length J m n hJ j hj]
+  apply toFn_injective n _ _ (combine_length J m n hJ _)
+    (by rw [vsub_length _ _ hl, combine_length J m n hJ])
+  rw [toFn_combine J m n hJ _ (by rw [pcUpd_length, hcw]), toFn_pcUpd m cw hcw j hj, sub_vecMul,
+    smul_vecMul, single_one_vecMul, toFn_vsub n _ _ hl, toFn_smul, toFn_combine J m n hJ cw hcw]
+  rfl
+
+theorem pcStep_spec (J : Mat α) (m n : Nat) (hJ : MatWF J m n) (i : Nat) (st : Vec α × α)
+    (hst : st.1.length = m) (j : Nat) (hj : j < m) :
+    (pcStep (gram J) i st j).1.length = m ∧
+      combine n J (pcStep (gram J) i st j).1 = pcRowStep J i (combine n J st.1) j := by
+  unfold pcStep pcRowStep
+  by_cases hji : j = i
+  · simp [hji, hst]
+  · simp only [hji, if_false]
+    rw [dot_gram_row J m n hJ j hj st.1 hst, gram_getD J j j (by rw [hJ.1]; exact hj)
+      (by rw [hJ.1]; exact hj)]
+    split_ifs with hip
+    · exact ⟨by rw [pcUpd_length, hst], combine_pcUpd J m n hJ st.1 hst j hj _⟩
+    · exact ⟨hst, rfl⟩
+
+theorem pcFold_spec (J : Mat α) (m n : Nat) (hJ : MatWF J m n) (i : Nat) :
+    ∀ (perm : List Nat) (hperm : ∀ j ∈ perm, j < m) (st : Vec α × α), st.1.length = m →
+      (perm.foldl (pcStep (gram J) i) st).1.length = m ∧
+        combine n J (perm.foldl (pcStep (gram J) i) st).1 =
+          perm.foldl (pcRowStep J i) (combine n J st.1)
+  | [], _, st, hst => ⟨hst, rfl⟩
+  | j :: perm, hperm, st, hst => by
+    obtain ⟨h1, h2⟩ := pcStep_spec J m n hJ i st hst j (hperm j (by simp))
+    rw [List.foldl_cons, List.foldl_cons, ← h2]
+    exact pcFold_spec J m n hJ i perm (fun k hk => hperm k (by simp [hk])) _ h1
+
+theorem perms_getD_lt (m : Nat) (perms : List (List Nat)) (hp : ∀ p ∈ perms, ∀ j ∈ p, j < m)
+    (i : Nat) : ∀ j ∈ perms.getD i [], j < m := by
+  by_cases hi : i < perms.length
+  · exact hp _ (getD_mem perms [] i hi)
+  · rw [List.getD_eq_getElem?_getD, List.getElem?_eq_none (not_lt.mp hi)]
+    simp
+
+theorem pcgrad_refines' (J : Mat α) (m n : Nat) (hJ : MatWF J m n) (perms : List (List Nat))
+    (hp : ∀ p ∈ perms, ∀ j ∈ p, j < m) :
+    combine n J (pcgradWeights (gram J) perms).1 =
+      vsum n ((List.range m).map fun i => pcRow J i (perms.getD i [])) := by
+  have hm : (gram J).length = m := by rw [gram_length, hJ.1]
+  rw [pcgradWeights_fst, hm, combine_vsum J m n hJ]
+  · rw [List.map_map]
+    congr 1
+    apply List.map_congr_left
+    intro i hi
+    have hi' : i < m := List.mem_range.mp hi
+    have := (pcFold_spec J m n hJ i (perms.getD i []) (perms_getD_lt m perms hp i)
+      (oneHot m i, 1) (oneHot_length m i)).2
+    simp only [Function.comp_apply]
+    rw [this, pcRow_eq, combine_oneHot J m n hJ i hi']
+  · intro w hw
+    obtain ⟨i, _, rfl⟩ := List.mem_map.mp hw
+    exact (pcFold_spec J m n hJ i (perms.getD i []) (perms_getD_lt m perms hp i)
+      (oneHot m i, 1) (oneHot_length m i)).1
+
+/-- without conflicts the inner loop never fires -/
+theorem pcFold_noconflict (J : Mat α) (m n : Nat) (hJ : MatWF J m n) (i : Nat) (hi : i < m)
+    (hnc : ∀ a b, a < m → b < m → 0 ≤ dot (J.getD a []) (J.getD b [])) :
+    ∀ (perm : List Nat) (hperm : ∀ j ∈ perm, j < m) (mg : α),
+      (perm.foldl (pcStep (gram J) i) (oneHot m i, mg)).1 = oneHot m i
+  | [], _, _ => rfl
+  | j :: perm, hperm, mg => by
+    have hj : j < m := hperm j (by simp)
+    rw [List.foldl_cons]
+    have : ∃ mg', pcStep (gram J) i (oneHot m i, mg) j = (oneHot m i, mg') := by
+      unfold pcStep
+      by_cases hji : j = i
+      · exact ⟨mg, by simp [hji]⟩
+      · simp only [hji, if_false]
+        rw [dot_gram_row J m n hJ j hj _ (oneHot_length m i), combine_oneHot J m n hJ i hi,
+          if_neg (not_lt.mpr (hnc j i hj hi))]
+        exact ⟨_, rfl⟩
+    obtain ⟨mg', h⟩ := this
+    rw [h]
+    exact pcFold_noconflict J m n hJ i hi hnc perm (fun k hk => hperm k (by simp [hk])) mg'
+
+theorem vsum_oneHot (m : Nat) :
+    vsum m ((List.range m).map fun i => (oneHot m i : Vec α)) = List.replicate m 1 := by
+  have hall : ∀ x ∈ (List.range m).map fun i => (oneHot m i : Vec α), x.length = m := by
+    intro x hx
+    obtain ⟨i, _, rfl⟩ := List.mem_map.mp hx
+    exact oneHot_length m i
+  apply toFn_injective m _ _ (vsum_length m _ hall) (by simp)
+  rw [toFn_vsum m m _ (by simp) hall]
+  funext k
+  rw [Finset.sum_apply]
+  have : ∀ i : Fin m, toFn m (((List.range m).map fun i => (oneHot m i : Vec α)).getD i []) k =
+      if i = k then 1 else 0 := by
+    intro i
+    have e : ((List.range m).map fun i => (oneHot m i : Vec α)).getD i [] = oneHot m i := by
+      simp [List.getD_eq_getElem?_getD, List.getElem?_range i.2]
+    rw [e, toFn_oneHot]
+    simp only [Fin.ext_iff, eq_comm]
+  simp only [this]
+  simp [toFn, List.getD_eq_getElem?_getD, List.getElem?_replicate]
+
+theorem pcgrad_noconflict (J : Mat α) (m n : Nat) (hJ : MatWF J m n) (perms : List (List Nat))
+    (hp : ∀ p ∈ perms, ∀ j ∈ p, j < m)
+    (hnc : ∀ a b, a < m → b < m → 0 ≤ dot (J.getD a []) (J.getD b [])) :
+    (pcgradWeights (gram J) perms).1 = List.replicate m 1 := by
+  have hm : (gram J).length = m := by rw [gram_length, hJ.1]
+  rw [pcgradWeights_fst, hm, ← vsum_oneHot m]
+  congr 1
+  apply List.map_congr_left
+  intro i hi
+  exact pcFold_noconflict J m n hJ i (List.mem_range.mp hi) hnc _ (perms_getD_lt m perms hp i) 1
 
 end Tjd.Agg
